@@ -262,6 +262,13 @@ func sameValue(a, b any) bool {
 
 // checkVector parses argv with a fresh FlagSet and compares with the model. shape: 0 = A, 1 = B.
 func checkVector(shape int, argv []string) (msg string, class string, nflags int) {
+	return checkVectorEnv(shape, argv, nil)
+}
+
+// checkVectorEnv also sets the CFG_* environment variable of some flags (env: flag name -> text). The environment sits
+// between the configuration file and the command line: a flag given on the command line is assigned its command-line
+// text whatever the environment says, and the environment's text is only interpreted for flags the vector leaves alone.
+func checkVectorEnv(shape int, argv []string, env map[string]string) (msg string, class string, nflags int) {
 	var ptr any
 	var defs []flagDef
 	if shape == 0 {
@@ -272,6 +279,12 @@ func checkVector(shape int, argv []string) (msg string, class string, nflags int
 	fs, err := config.NewFlagSet(ptr)
 	if err != nil {
 		return "NewFlagSet failed: " + err.Error(), "", 0
+	}
+	for name, text := range env {
+		if flg := fs.Lookup(name); flg != nil && flg.Env != "" {
+			os.Setenv(flg.Env, text)
+			defer os.Unsetenv(flg.Env)
+		}
 	}
 	in := append([]string(nil), argv...)
 	var perr error
@@ -312,6 +325,15 @@ func checkVector(shape int, argv []string) (msg string, class string, nflags int
 				m.err = "value"
 			}
 		}
+		for name, text := range env {
+			if _, onCli := m.values[name]; onCli {
+				continue // overridden by the command line: its text is never interpreted
+			}
+			kind, _ := kindOf(defs, name)
+			if _, ok := parseTyped(kind, text); !ok {
+				m.err = "value"
+			}
+		}
 	}
 	if (perr != nil) != (m.err != "") {
 		return fmt.Sprintf("Parse(%q) error = %v, reference reader says %q", argv, perr, m.err), m.err, m.nflags
@@ -336,6 +358,9 @@ func checkVector(shape int, argv []string) (msg string, class string, nflags int
 		text, from := d.def, "default"
 		if j, ok := jsonLayer[d.name]; ok {
 			text, from = j, "config file"
+		}
+		if v, ok := env[d.name]; ok {
+			text, from = v, "environment"
 		}
 		if v, ok := m.values[d.name]; ok {
 			text, from = v, "command line"
@@ -451,9 +476,29 @@ func TestGenerated(t *testing.T) {
 			defs = defsB
 		}
 		argv := genTokens(defs, shape).Draw(t, "argv")
-		msg, class, nflags := checkVector(shape, argv)
+		var env map[string]string
+		if rapid.IntRange(0, 2).Draw(t, "withEnvironment") == 0 {
+			// the same vector with CFG_* variables set for some flags: texts that equal the default or the configuration
+			// file's value, other good texts, and now and then an unparsable one
+			env = map[string]string{}
+			for i, n := 0, rapid.IntRange(1, 4).Draw(t, "nenv"); i < n; i++ {
+				d := rapid.SampledFrom(defs).Draw(t, "envFlag")
+				pool := append([]string{d.def}, goodValues[d.kind]...)
+				if j, ok := jsonA[d.name]; ok && shape == 0 {
+					pool = append(pool, j)
+				}
+				if rapid.IntRange(0, 5).Draw(t, "badEnv") == 0 && len(badValues[d.kind]) > 0 {
+					pool = badValues[d.kind]
+				}
+				if text := rapid.SampledFrom(pool).Draw(t, "envText"); !strings.Contains(text, "\x00") { // no NUL in the environment
+					env[d.name] = text
+				}
+			}
+			ev.Label("gen:environment_variables_set_for_some_flags")
+		}
+		msg, class, nflags := checkVectorEnv(shape, argv, env)
 		if msg != "" {
-			t.Fatalf("%s", msg)
+			t.Fatalf("%s\n  environment (flag -> text): %q", msg, env)
 		}
 		record(shape, argv, class, nflags)
 	})
